@@ -38,7 +38,9 @@ CONSTANTS SegNames,     \* segment names URIs are built from; ".." and "." have 
           DotDotNames,  \* the names in SegNames that begin with two dots without being ".."
           MaxSegs,      \* bound on the number of segments of an enumerated URI (model bound)
           Roots,        \* configured directories AS GIVEN: sequence of token sequences (may end in "/", contain "." "..")
-          ModOn,        \* module_directory configured?
+          ModOn,        \* are module files written (module_directory and/or modulename_callable configured)?
+          ModCallable,  \* TemplateLookup(modulename_callable=...) / Template(module_filename=...): the module path is
+                        \* chosen by the caller (here: ModRoot/cb/<source path>.py), not derived from the URI
           ModDir,       \* module_directory as given (token sequence)
           Files,        \* the regular files of the world: set of absolute segment sequences
           Callers,      \* record: context name |-> raw URI (token sequence) of a calling template
@@ -125,6 +127,8 @@ UNorm(u) == NormT(LStrip(MapBs(u))).segs
 \* Template.__init__: abspath(join(normpath(module_directory), u_norm + ".py")); u_norm is "." for <<>>
 ModRel(un) == IF un = <<>> THEN <<"..py">> ELSE Append(Front(un), Last(un) \o ".py")
 ModPath(un) == NormT(JoinT(ModRootToks, Interleave(ModRel(un)))).segs
+\* the module path the harness' modulename_callable / module_filename gives for source file s
+CallablePath(s) == ModRoot.segs \o <<"cb">> \o Front(s) \o <<Last(s) \o ".py">>
 \* adjust_uri(uri, relativeto)
 AdjustUri(u, c) == IF Head(u) = "/" THEN u ELSE JoinT(CallerDir[c], u)
 
@@ -179,6 +183,10 @@ ProbeFail == /\ pc = "probe" /\ Candidate(adj, di).segs \notin Files /\ di = NDi
              /\ res' = Exc("toplevel") /\ pc' = "done" /\ UNCHANGED <<uri, ctx, adj, di, src>>
 
 \* Template.__init__ (called by _load with uri = the adjusted URI, filename = normpath(srcfile)).
+\* OPTION VECTORS.  Whether the URI is refused does not depend on any option: not on module_directory, not on
+\* module_filename / modulename_callable (which only replace the module path), and not on filesystem_checks,
+\* collection_size, cache_enabled, strict_undefined, input_encoding, preprocessor, lexer_cls -- none of which
+\* appears in this model; the harness crosses the requests with those options and the outcomes must stay the same.
 \* Where the property is silent, both outcomes are allowed:
 \*  * a first segment like "..name" (an ordinary name inside the root; the code refuses it because
 \*    its test is a string prefix test);
@@ -193,7 +201,7 @@ ConstructOutcomes(a, s, c) ==
      THEN IF c \in LookupCtx /\ InsideSomeRoot(s)                \* out and back: silent
           THEN {Exc("outside"), Found(s, <<>>, TRUE)} ELSE {Exc("outside")}
      ELSE IF dotdothead THEN {Exc("dotdotname"), Found(s, <<>>, TRUE)}
-     ELSE {Found(s, ModPath(un), FALSE)}
+     ELSE {Found(s, IF ModCallable THEN CallablePath(s) ELSE ModPath(un), FALSE)}
 Escapes(u) == UNorm(u) # <<>> /\ Head(UNorm(u)) = ".."
 Construct == /\ pc = "construct" /\ res' \in ConstructOutcomes(adj, src, ctx) /\ pc' = "done"
              /\ UNCHANGED <<uri, ctx, adj, di, src>>
